@@ -22,7 +22,10 @@ OBLIGATIONS = [
     (P + "lru_move_to_front", "every operation puts the entry it uses at the LRU front and keeps the order of all others"),
     (P + "lru_is_recency_order", "a used after b's last store/fetch => a stands before b in lru whenever both are held"),
     (P + "stats_match_history", "stats = (number of held keys, total number of entry-trigger links) after every history"),
-    (P + "matches_reference", "no memory pressure: after every history the model answers every operation (fetch results, stats counts) exactly as the reference cache written from the property text (expired earliest-deadline first, else LRU)"),
+    (P + "matches_reference", "every history and every allocation outcome (low-memory answers, failing copies, bad_alloc inside): the model answers every operation (fetch results, stats counts) exactly as the reference cache written from the property text (expired earliest-deadline first, else LRU; room made while the allocator reports low memory)"),
+    (P + "matches_reference_thread", "thread back-end: the entry-count cap never fires, matches_reference holds unconditionally"),
+    (P + "max_available_is_max_free_chunk", "shmem_control::max_available() is the allocator's max_free_chunk() (translator), i.e. the memory-pressure test looks at the largest free chunk"),
+    (P + "pressure_off_when_chunk_free", "not_enough_memory() modelled over the buddy arena (generated 10% fraction): false as soon as a free block of >= 10% of the segment exists"),
     (P + "buddy_init_normal", "buddy allocator: the constructed arena is in coalesced normal form"),
     (P + "buddy_step_normal", "buddy allocator: malloc and free keep the normal form (no two free buddies side by side), whichever block is chosen"),
     (P + "buddy_used_after_alloc", "buddy allocator: malloc adds exactly its block to the blocks in use"),
@@ -152,6 +155,8 @@ def gen_streams(c):
         hs = []
         for i in range(60 if thorough else 8):
             hs.append(H.pressure_history(rng, rng.choice((0, 0, 3, 8, 100)), seg, rng.randrange(60, 250 if thorough else 120)))
+        for i in range(12 if thorough else 3):
+            hs.append(H.fill_history(rng, rng.choice((0, 8, 8, 100)), seg, rng.randrange(2, 5), rng.randrange(10, 40)))
         streams.append((f"pressure-{seg >> 10}K", seg, hs, True))
     return streams
 
@@ -202,7 +207,7 @@ def main():
               "(fetch of every key) at the end; non-trivial = the model answers `hit` or the counters change")
     c.trusted += [
         "model, translator and harness of C07 (lean/Cppcms/C07/Model.lean, translate/c07.py, harness/c07.cpp)",
-        "not_enough_memory() answers and bad_alloc outcomes are inputs of the model; for the memory-pressure streams they are fitted from the implementation's entry count after each store (minimal number of `true` answers)",
+        "not_enough_memory() answers are inputs of the model; in the correspondence runs they are NOT taken from the code under test: the harness (check_limits hook, /repo 45ec094) evaluates `largest free chunk of the segment's buddy allocator < 10% of the segment` on the allocator's own state at every evaluation of the loop guard, and both the model and the reference cache must then reproduce the implementation's evictions exactly; copy failures / bad_alloc inside are recorded from the real allocator",
         "translator translate/c08.py (buddy_allocator.h: alignment, block size formula, smallest order, header size on LP64, shape of page_alloc/free_page/get_buddy)",
         "buddy allocator model (Buddy.lean) is a forest of binary trees; the allocator's choice of block (best fit, LIFO free lists, lowest address) is NOT modelled: the address it returns is an oracle input, the model checks it is a free region of the right order; get_buddy's xor = sibling and `buddy->bits == bits` = sibling is a free leaf are assumed and validated by comparing the free lists after every operation",
         "that the containers living in the segment (basic_string, hash_map, list, multimap nodes) free everything of a removed entry is not modelled: checked on the real cache only (fill/empty/refill cycles comparing shmem_control::available()/max_available())",
@@ -242,7 +247,7 @@ def main():
             for i, l in enumerate(h[-40:]):
                 print("case :", l[:120]); print("impl :", (o[len(h) - 40 + i] if len(h) - 40 + i < len(o) else "")[:120])
             c.finish()
-        k, verdict, raw, mout, err = R.judge_history(h, shm, ko, "JL" if ko else "J8")
+        k, verdict, raw, mout, err = R.judge_history(h, shm, ko, "J8")
         cen = H.check_census(h, raw, [0] * len(h))
         for i, l in enumerate(h):
             print("case :", l[:200]); print("impl :", (raw[i] if i < len(raw) else "")[:200]); print("model:", (mout[i] if i < len(mout) else "")[:200])
@@ -269,9 +274,9 @@ def main():
     ev_by_stream = {}
     for name, shm, hists, ko in streams:
         prev["tail"] = None
-        # judge: without memory pressure the reference cache of C08/Spec.lean must be matched exactly (J8);
-        # under pressure only the limit clause (JL) and the census are judged
-        jp = "JL" if ko else "J8"
+        # judge: the reference cache of C08/Spec.lean must be matched exactly (J8), also under memory pressure (the
+        # low-memory answers it is given are computed by the harness from the allocator's own state)
+        jp = "J8"
         r = R.run_stream(name, hists, shm, ko, nontrivial, jprefix=jp)
         cases, hist_of = r["cases"], r["hist_of"]
         judged += len(cases)
@@ -302,10 +307,18 @@ def main():
             bad_h.setdefault(hist_of[k], verdict)
         for hi, msg in H.check_census(cases, r["raw"], hist_of):
             bad_h.setdefault(hi, msg)
+        if not bad_h:
+            # tie of the low-memory oracle: what shmem_control reports must be what the allocator of the segment says
+            for k, line in enumerate(r["raw"]):
+                if "maxavail-mismatch" in line:
+                    bad_h.setdefault(hist_of[k], "shmem_control::max_available()/available() do not report the allocator's largest free chunk / total free memory")
         for hi, verdict in list(bad_h.items())[:3]:
             h = hists[hi]
+            flag_only = verdict.startswith("shmem_control::")
             def fails(cand):
                 k, v, raw, mout, err = R.judge_history(cand, shm, ko, jp)
+                if flag_only and any("maxavail-mismatch" in x for x in raw):
+                    return True
                 return k is not None or bool(H.check_census(cand, raw, [0] * len(cand)))
             small = R.shrink(h, shm, fails) if fails(h) else h
             kk, v2, raw, mout, err = R.judge_history(small, shm, ko, jp)
@@ -370,6 +383,8 @@ def main():
         if not ok:
             c.violation("shared memory of removed entries is not released: " + msg,
                         {"history": lines, "shm": seg, "impl_outputs": out[-20:], "note": "harness-only stream (avail lines); replay with .build/harness/c07 <shm> < history"})
+    # report a property-level counter-example before the allocator-report cross-check
+    c.violations.sort(key=lambda v: "shmem_control::" in str(v.get("what")))
     c.extra_cov["op_distribution"] = dist
     c.extra_cov["judged_impl_outputs"] = judged
     c.extra_cov["stores_that_evicted"] = evictions
